@@ -742,6 +742,16 @@ def fam_hostile_srv(seed, n=0, dirs=("fwd", "rev"), modes=("neg", "legacy", "off
                                 "cfg": {"dir": d, "rawCli": mode}, "steps": steps, "rpcs": rpcs,
                                 "policy": {"kind": "eager", "seed": seed, "max": 200},
                                 "meta": {"family": "hostile-srv", "deviation": dname}})
+        # an eager peer: it negotiates but starts sending before it has received the settings frame (held at its
+        # emission point): whatever the server answers, settings is still the first frame it sends
+        for shape in ("unary", "bidi"):
+            steps = [{"do": "open"}]
+            for f in [new_frame(1, 1, shape=shape)] + data_frames(1, 1, "c", 0, 9) + [raw("half", 1)]:
+                steps += [copy.deepcopy(f), dl("c2s")]
+            steps += [sop(1, "recv"), sop(1, "ret", code=0, n=4), {"do": "release", "point": "srv.settings.emit", "sid": -1}, {"do": "drain"}]
+            out.append({"name": "hostile-srv-%s-eager-before-settings-%s" % (d, shape), "cfg": {"dir": d, "rawCli": "neg", "gates": ["srv.settings.emit"]},
+                        "steps": steps, "rpcs": [{"rpc": 1}], "policy": {"kind": "eager", "seed": seed, "max": 0},
+                        "meta": {"family": "hostile-srv", "deviation": "eager-before-settings"}})
         # a peer that announces an enormous message and sends only its first bytes (legal so far: the rest could
         # follow as credit is returned): the endpoint must not reserve what was merely announced
         for announced in (1 << 28, (1 << 32) - 1):
